@@ -35,6 +35,7 @@ class Prov:
         self.fn = fn
         self.flow = flow  # optional BoolFlow: restrict reaching definitions to feasible edges of a context
         self.cut = cut    # named locals assigned more than once become ('var', name, local) leaves
+        self._size_memo = {}
         self.defs = {}
         self._site_term = {}
         self._in_progress = set()
@@ -236,6 +237,10 @@ class Prov:
                 t = self._rvalue(node["rv"], bi, si, depth)
         finally:
             self._in_progress.discard(key)
+        # a value whose term has grown beyond any rule's reach (a chain of conditional updates outside a cut variable doubles the
+        # alternatives at every link) is cut off here, so that the analysis stays linear in the size of the function
+        if _term_size(t, self._size_memo) > TERM_SIZE_LIMIT:
+            t = ("unknown", "big")
         if not _contains_rec(t):
             self._site_term[key] = t
         return t
@@ -470,6 +475,26 @@ class Prov:
 
 import re as _re
 _UNSIGNED_CHECKED_SUB = _re.compile(r"^core::num::<impl u(8|16|32|64|128|size)>::checked_sub$")
+
+
+TERM_SIZE_LIMIT = 60000
+
+
+def _term_size(t, memo, _depth=0):
+    """Number of nodes of a term as a tree (sub-terms shared by identity are measured once and their size reused)."""
+    if not isinstance(t, (tuple, frozenset)):
+        return 1
+    k = id(t)
+    if k in memo:
+        return memo[k][0]
+    n = 1
+    for x in t:
+        if isinstance(x, (tuple, frozenset)):
+            n += _term_size(x, memo, _depth + 1)
+            if n > TERM_SIZE_LIMIT * 4:
+                break
+    memo[k] = (n, t)      # keep the term alive so that its id stays unique
+    return n
 
 
 def _proj_key(proj):
